@@ -8,3 +8,10 @@ CLAIMED["C06"] = (
     _TRUST,
     "DESIGN.md section 4 C06",
 )
+CLAIMED["C05"] = (
+    "exploration",
+    "property-based testing: Hypothesis-generated command histories, oracle = reference model compared with an observer session's full read-back of every mailbox after every step",
+    "Generated histories (APPEND/STORE/EXPUNGE/UID EXPUNGE/CLOSE/COPY/MOVE/EXAMINE/deliveries, sparse UIDs, partly absent UID sets) with a model that changes only on OK and never for an EXAMINE session; every mailbox is re-read after every step, so a message removed, added, re-flagged or re-dated anywhere is seen at the step that caused it.",
+    _TRUST + " Commands run one at a time; flags compared modulo \\Recent.",
+    "DESIGN.md section 4 C05",
+)
